@@ -70,6 +70,14 @@ def check(run):
                 extra.append(d2)
             top, _ = cborgen.parse(f["data"])
             extra.append(cborgen.encode(top, rng, rng.choice([0.1, 0.4]), cborgen.unknown_member if rng.random() < 0.5 else None))
+            # a non-aggregating writer: one address-event key in several items (different counts); blocks of parameter set 0
+            # without the optional block-parameters-index
+            d3, na = foreign.repeat_address_events(f["data"], rng)
+            if na:
+                extra.append(d3); run.count("pool: repeated address-event keys", na)
+            d4, nb = foreign.drop_block_parameters_index(d3 if na and rng.random() < 0.5 else f["data"], rng)
+            if nb:
+                extra.append(d4); run.count("pool: blocks without block-parameters-index", nb)
         if extra and run.driver_ok:
             for d2, lg in zip(extra, G.run_driver(["cdns " + d.hex() for d in extra])):
                 if lg and lg.startswith("S F{") and " EOF #" in lg:
